@@ -107,4 +107,60 @@ Section DSep.
 
   Definition min_sepb (g : digraph A) (x y : A) (Z : list A) : bool :=
     dsepb g [x] [y] Z && forallb (fun z => negb (dsepb g [x] [y] (rem z Z))) Z.
+
+  (** * [get_d_separation_set] = [networkx.minimal_d_separator(G, u, v)] (Tian & Paz)
+
+      Python (networkx 3.2.1), after the library asserted that the graph is a DAG, that both
+      nodes exist and that there is no edge between them:
+<<
+      D_anc_xy = ancestors(u) | ancestors(v) | {u, v}
+      moral_G  = moral_graph(G.subgraph(D_anc_xy))
+      Z_prime  = predecessors(u) | predecessors(v)
+      Z_dprime = _bfs_with_marks(moral_G, u, Z_prime)
+      Z        = _bfs_with_marks(moral_G, v, Z_dprime)
+>>
+      [_bfs_with_marks(G, s, check)] explores from [s]; a neighbour in [check] is marked and
+      not expanded; the marked nodes are returned.  The result is a Python set. *)
+
+  (** Adjacency in the moral graph of the subgraph induced by [D]. *)
+  Definition moral_adjb (g : digraph A) (D : list A) (a b : A) : bool :=
+    memb eqb a D && memb eqb b D && negb (eqb a b)
+    && (has_arc eqb g a b || has_arc eqb g b a
+        || existsb (fun c => memb eqb c D && has_arc eqb g b c) (children eqb g a)).
+
+  Definition moral_nbrs (g : digraph A) (D : list A) (a : A) : list A :=
+    filter (moral_adjb g D a) D.
+
+  (** [n] rounds of "add the neighbours of the region that are not in [check]". *)
+  Fixpoint grow (n : nat) (g : digraph A) (D check R : list A) : list A :=
+    match n with
+    | O => R
+    | S n' =>
+        grow n' g D check
+          (union eqb (filter (fun x => negb (memb eqb x check)) (flat_map (moral_nbrs g D) R)) R)
+    end.
+
+  Definition bfs_marks (g : digraph A) (D : list A) (start : A) (check : list A) : list A :=
+    let R := grow (length D) g D check [start] in
+    filter (fun c => existsb (fun r => moral_adjb g D r c) R) check.
+
+  Definition min_dsep_set (g : digraph A) (u v : A) : list A :=
+    let D := union eqb (anc eqb g u) (union eqb (anc eqb g v) (union eqb [u; v] [])) in
+    let Z1 := union eqb (parents eqb g u) (union eqb (parents eqb g v) []) in
+    bfs_marks g D v (bfs_marks g D u Z1).
+
+  (** * [is_minimally_d_separated], following the algorithm
+
+      [networkx.is_minimal_d_separator(G, u, v, z)] (3.2.1) first calls [d_separated] (here:
+      [dsepb]), rejects a [z] with a node outside ancestors(u) | ancestors(v), and then
+      requires every node of [z] to be marked by [_bfs_with_marks] from [u] and from [v] in the
+      moralised ancestral graph.  The library ANDs the result with [is_d_separated]. *)
+  Definition nx_min_sepb (g : digraph A) (u v : A) (Z : list A) : bool :=
+    let xy_anc := union eqb (anc eqb g u) (union eqb (anc eqb g v) []) in
+    let D := union eqb (anc eqb g u) (union eqb (anc eqb g v) (union eqb [u; v] [])) in
+    dsepb g [u] [v] Z
+    && forallb (fun z => memb eqb z xy_anc) Z
+    && forallb (fun z => memb eqb z (bfs_marks g D u Z)) Z
+    && forallb (fun z => memb eqb z (bfs_marks g D v Z)) Z
+    && dsepb g [u] [v] Z.
 End DSep.
